@@ -9,7 +9,7 @@ ID = "C13"
 LEVEL = "exploration"
 TECHNIQUE = "trace-specification monitor: every query(k, threshold) answer in histories interleaving add/merge/save+load/query is re-derived from the sketch's other accessor hh[.], from the unbounded answer, and from a freshly loaded copy (freshness oracle); cache-hit and cache-miss paths are counted"
 RULE = ("case = history of add/update/ngram/merge/save+load events on up to 4 sketches with query(k, threshold) calls interleaved "
-        "(thresholds None/0/1/small/2^32-1, k in {1,2,3,10^9}, repeated with unchanged and changed thresholds); non-trivial = the case "
+        "(thresholds None/0/1/small/2^32-1/2^32/2^40/2^63/2^64-1, k in {1,2,3,10^9}, repeated with unchanged and changed thresholds); non-trivial = the case "
         "contains a query answered from the cache and one that had to rebuild it, on a sketch where identities share a cell; distinct = by "
         "case digest; also k = 0, sketches with 3000-5000 candidates (k in {0,1,2047,2500,10^9}), a third of the queries asked under a "
         "RuntimeWarning-as-error filter and repeated leniently if that raised, runs of 70 self-merges (bookkeeping wraps at 2^64)")
@@ -109,7 +109,7 @@ def check_query(run, i, ev, why):
         mon.count("queries_cache_miss")
         run.saw_miss = True
     mon.count("queries_after_" + why)
-    mon.seen("threshold_kind", "None" if t is None else ("cap" if t == CAP else ("0" if t == 0 else ("1" if t == 1 else "small"))))
+    mon.seen("threshold_kind", "None" if t is None else ("above-cap" if t > CAP else "cap" if t == CAP else ("0" if t == 0 else ("1" if t == 1 else "small"))))
     mon.seen("k", k)
 
 
@@ -310,5 +310,5 @@ def floors(mon, ctx):
     mon.floor("queries on the cache-miss path", mon.counters["queries_cache_miss"], 50)
     mon.floor("queries right after a merge", mon.counters["queries_after_merge"], 20)
     mon.floor("queries right after a load", mon.counters["queries_after_load"], 10)
-    mon.floor("threshold kinds", len(mon.classes["threshold_kind"]), 5)
+    mon.floor("threshold kinds", len(mon.classes["threshold_kind"]), 6)
     mon.floor("default-threshold boundary cases", mon.counters["default_threshold_boundary_cases"], 40)
